@@ -34,8 +34,8 @@ extern('Semaphore.__init__', params={'self': 'Semaphore', 'value': 'Int'}, defau
 extern('Semaphore.locked', params={'self': 'Semaphore'}, returns='Bool', pure=True, reads=['self.counter'],
        ensures=['result == (self.counter == 0)'])
 extern('Semaphore.acquire', params={'self': 'Semaphore', 'blocking': 'Bool'}, defaults={'blocking': 'True'},
-       returns='Bool', yields=True, modifies=['self.counter'],
-       ensures=['implies(blocking, result and self.counter >= 0)',
+       returns='Bool', yields=True, modifies=['self.counter', 'self.held'],
+       ensures=['implies(blocking, result and self.counter >= 0)', 'self.held == result',
                 # blocking: waits (yield point) until the counter is positive, then takes one unit.  While it
                 # waits other greenlets may release, so only counter >= 0 is known unless it was positive
                 'implies(old(self.counter) > 0, result and self.counter == old(self.counter) - 1)',
@@ -48,7 +48,7 @@ predicate('INV_deque(d)', 'd.sema != None and d.sema.counter == d.n and d.n >= 0
 BD = dict(module=MD, props=['C19'])
 ARGS = {'self': 'BlockingDeque', '*args': 'Args1', 'kwargs': 'Kwargs'}
 ARGS0 = {'self': 'BlockingDeque', '*args': 'Args0', 'kwargs': 'Kwargs'}
-DMOD = ['self.n', 'self.sema.counter']
+DMOD = ['self.n', 'self.sema.counter', 'self.sema.held']
 
 contract('BlockingDeque.append', params=ARGS, returns='Any', requires=['INV_deque(self)'],
          ensures=['INV_deque(self)', 'self.n == old(self.n) + 1'], modifies=DMOD, **BD)
@@ -143,12 +143,12 @@ contract('RelayPool.attempt', module=MP, props=['C19'],
                   'self.pool_size is None or len(self.pool) <= cast(self.pool_size, Int)'],
          raises={'TransientRelayError': ['len(self.pool) >= 1'], 'PermanentRelayError': ['len(self.pool) >= 1'],
                  'OtherException': []},
-         modifies=['contents(self.pool)', 'self.queue.n', 'self.queue.sema.counter', 'fresh'])
+         modifies=['contents(self.pool)', 'self.queue.n', 'self.queue.sema.counter', 'self.queue.sema.held', 'fresh'])
 
 contract('RelayPoolClient.poll', module=MP, props=['C19'],
          params={'self': 'RelayPoolClient'}, returns='Any',
          requires=['self.queue != None', 'INV_deque(self.queue)', 'self.queue.n > 0'],
          ensures=['not self.idle', 'INV_deque(self.queue)', 'self.queue.n == old(self.queue.n) - 1'],
-         modifies=['self.idle', 'self.queue.n', 'self.queue.sema.counter', 'fresh'],
+         modifies=['self.idle', 'self.queue.n', 'self.queue.sema.counter', 'self.queue.sema.held', 'fresh'],
          notes='poll(): exactly one request taken per call and the idle flag cleared on every exit; verified for '
                'the case where a request is available (the blocking wait is a yield point, G2 not modelled)')
